@@ -139,10 +139,10 @@ theorem frame_init (s : Store α) : Frame s s [] := fun _ _ hx _ => hx
 
 /-- COMPLETENESS of the cycle check of `upsert_entities` (any batch): a cyclic resulting parent graph is
     rejected with `cycle` -/
-theorem upsertEntities_cyclic (s : Store α) (es : List (α × Node α)) (hinv : StoreInv s)
+theorem upsertApply_cyclic (s : Store α) (es : List (α × Node α)) (hinv : StoreInv s)
     (hc : ∃ x, Reach (shape (es.foldl upsertOne (s, [])).1) x x) :
-    upsertEntities .compute s es = .error .cycle := by
-  unfold upsertEntities
+    upsertApply .compute s es = .error .cycle := by
+  unfold upsertApply
   simp only [finish, if_true]
   exact (upsertFold_frame es (s, []) (frame_init s)).rejects_cyclic hinv hc
 
@@ -178,10 +178,11 @@ theorem applyOp_acyclic (s : Store α) (o : Op α) (s' : Store α) (hinv : Store
   | upsert m es =>
     have hm : m = .compute := hpure
     subst hm
-    simp only [applyOp] at hok
+    simp only [applyOp, upsertEntities] at hok
+    generalize dedupLastAtFirstPos es = es at hok
     have hrep : repairTc (touchPass (es.foldl upsertOne (s, [])).1 (es.foldl upsertOne (s, [])).2)
         (es.foldl upsertOne (s, [])).1 = .ok s' := by
-      simpa [upsertEntities, finish] using hok
+      simpa [upsertApply, finish] using hok
     rw [shape_eq_of_pg (repairTc_pg hrep)]
     exact (upsertFold_frame es (s, []) (frame_init s)).accepts_acyclic hinv hrep
 
